@@ -7,7 +7,7 @@ import z3
 
 from . import decl, heapops, ops, spec
 from .calls import bind_target, iter_domain, resolve_targets
-from .core import (BOOL, INT, NONEV, NUM, STR, ExcVal, FuncVal, StaleContract, TDict, TInt, TList, TMap, TOpt, TRef,
+from .core import (esort, epack, eunpack, BOOL, INT, NONEV, NUM, STR, ExcVal, FuncVal, StaleContract, TDict, TInt, TList, TMap, TOpt, TRef,
                    TSeq, TSet, TSetV, TTuple, Unsupported, Val, boolv, coerce, fresh_name, val_ite)
 from .exec import Outcome, ViewVal, _short
 
@@ -137,7 +137,7 @@ def cut_for(ex, node, ordinal, lspec, it, st):
         ksort, kt = d.t.k.sort(), d.t.k
     elif kind == "set":
         keyset0 = dom[1].v
-        ksort, kt = dom[1].t.e.sort(), dom[1].t.e
+        ksort, kt = esort(dom[1].t.e), dom[1].t.e
     elif kind == "seq":
         seq0, et = dom[1], dom[2]
         n0 = z3.Length(seq0)
@@ -215,7 +215,7 @@ def cut_for(ex, node, ordinal, lspec, it, st):
             elem = k
     elif kind == "seq":
         body.assume(z3.And(I >= 0, I < n0))
-        elem = et.make([seq0[I]])
+        elem = eunpack(seq0[I], et)
     else:
         body.assume(z3.And(I >= lo0, I < hi0))
         elem = Val(INT, I)
